@@ -292,8 +292,9 @@ def monitor(case, out):
     for i, o in sorted(comp.items()):
         if o == 'silent':
             nfail = sum(1 for conns in tables.values() for (w, _) in conns if i in w)
-            return 'request %d got no reply and no error within %s ms (its request was written on %d connections; MAX_BACKEND_RETRY+1 = %d)' % (
-                i, toks[5], nfail, MAXR + 1)
+            bound = 'until the client stopped reading (sentinel reply, EOF or the 60 s cap)' if toks[3] == 's' else 'within %s ms' % toks[5]
+            return 'request %d got no reply and no error %s (its request was written on %d connections; MAX_BACKEND_RETRY+1 = %d)' % (
+                i, bound, nfail, MAXR + 1)
         if o.startswith('rep'):
             r = o[3:]
             if not r.isdigit() or int(r) // 100000 != i:
@@ -361,7 +362,10 @@ def run(chk):
     cases += gen_long_pipelines('dfy')
     cases += gen_session_depth()
     cases += gen_random(chk, 500 if quick else 12000)
-    rc1, impl = chk.run_impl('pipe', cases, timeout=3000, jobs=8)
+    # stripe the list over the 8 worker processes (run_impl cuts it into contiguous chunks): slow families (deep pipelines, and on a
+    # broken tree the cases that wait for the silence cap) are spread evenly instead of queueing up in one worker
+    cases = [c for k in range(8) for c in cases[k::8]]
+    rc1, impl = chk.run_impl('pipe', cases, timeout=6000, jobs=8)
     if len(impl) != len(cases):
         chk.violation({'kind': 'correspondence', 'correspondence': 'harness/pipe produced %d lines for %d cases' % (len(impl), len(cases)),
                        'detail': impl[-3:]}, no_input=True)
